@@ -61,6 +61,7 @@ type VC struct {
 	safety      bool
 	specDepth   int
 	nsub        int
+	libVars     map[string]bool
 	frameAllowed map[string][]string
 	globals     map[string]string
 	symSorts    map[string]string
@@ -620,6 +621,12 @@ func (vc *VC) fieldAddr(T types.Type, i int, ref string) (*Addr, string) {
 	}
 	sort := vc.sortOf(f.Type())
 	hv := vc.heapVar("F!"+key, "(Array Int "+sort+")")
+	if n, ok := T.(*types.Named); ok && !inModule(n.Obj().Pkg()) {
+		if vc.libVars == nil {
+			vc.libVars = map[string]bool{}
+		}
+		vc.libVars[hv] = true
+	}
 	return &Addr{Kind: "field", Var: hv, Ref: ref, Sort: sort, Typ: f.Type()}, fmt.Sprintf("(%s %s)", vc.addrFun("fa!"+key), ref)
 }
 
@@ -736,4 +743,17 @@ func (vc *VC) globalRef(pkgPath, name string) string {
 	vc.declared[key] = true
 	vc.emit(fmt.Sprintf("(define-fun %s () Int %s)", key, t))
 	return key
+}
+
+// havocLib: effect of a call into a library package declared with "libframe":
+// element arrays, cells of address-taken locals and fields of library types are
+// forgotten; fields of module struct types, module globals, maps and ghost
+// state are kept (assumption lib-frame, listed in the evidence).
+func (vc *VC) havocLib(st *State) {
+	for _, v := range sortedKeys(vc.hsort) {
+		if strings.HasPrefix(v, "E!") || strings.HasPrefix(v, "C!") || vc.libVars[v] {
+			vc.havocVar(st, v)
+		}
+	}
+	vc.havocVar(st, "$alloc")
 }
